@@ -524,6 +524,39 @@ def run_set_meter(case):
             S.problem("set_meter(%r) refused but changed the bar" % (meter,), ((4, 4), 1.0), (b.meter, b.length))
 
 
+FINE_LABELS = ["128", "128.", "128*3:2", "128*5:4", "128*7:4", "64", "64*3:2", "64*5:4", "64*7:4", "32*7:4", "32*3:2", "64.", "64...", "128...."]
+
+
+def run_near_full(case):
+    """case = [meter, [label, ...]]: very short values placed in a very short meter, so that accepted placements leave
+    remainders far below a thousandth of a whole note (but not nothing); the full accounting invariant after every
+    step, and again after removing and re-placing the last entry."""
+    S = engine.S
+    meter, labels = case
+    st = State(meter)
+    for lab in labels:
+        do_place(st, S, V.BY_LABEL[lab], "str", "place_notes", True)
+        check_invariant(st, S)
+    if st.ref.entries:
+        last = st.ref.entries[-1]
+        st.bar.remove_last_entry()
+        st.ref.pop()
+        check_invariant(st, S)
+        do_place(st, S, V.BY_LABEL[labels[-1]], "rest", "place_rest", True)
+        check_invariant(st, S)
+    rem = st.ref.length - st.ref.total
+    if Fraction(0) < rem <= Fraction(1, 1000):
+        S.count("states_with_a_remainder_below_a_thousandth")
+    S.trans(len(labels) + 2)
+
+
+def gen_near_full(shard):
+    meter, first = shard
+    for n in (0, 1, 2):
+        for rest in itertools.product(FINE_LABELS, repeat=n):
+            yield [list(meter), [first] + list(rest)]
+
+
 METER_SEQ = [(4, 4), (6, 8), (2, 2), (3, 16), (0, 0), (3, 4), (3, 5), (7, 1)]
 
 
@@ -592,6 +625,7 @@ CLAUSES = {
     "homogeneous": run_homogeneous,
     "set_meter": run_set_meter,
     "meter_history": run_meter_history,
+    "near_full": run_near_full,
     "place_at_drift": run_place_at_drift,
     "setitem_shared": run_setitem_shared,
 }
@@ -638,6 +672,12 @@ def explore(ctx):
         ctx.bound("place_at_drift", {"programs over {q,t,-}": "length <= %d" % long_n, "over {q,t,f,s,-} in 4/4 and {q,t,f,-} in (0,0)": "length <= %d" % wide_n,
                                      "symbols": DRIFT_SYMBOLS})
         ctx.product("place_at_drift", shards, gen_place_at_drift)
+    if not only or "near_full" in only:
+        nf_meters = [(1, 64), (1, 32), (3, 64), (1, 16)]
+        ctx.bound("near_full", {"meters": nf_meters, "values": FINE_LABELS, "entries": "<= 3"})
+        ctx.product("near_full", [(m, l) for m in nf_meters for l in FINE_LABELS], gen_near_full)
+        if not only:
+            ctx.guard("states with a remainder below a thousandth", ctx.counter("states_with_a_remainder_below_a_thousandth"), 50)
     if not only or "meter_history" in only:
         nm = len(METER_SEQ)
         ctx.bound("meter_history", {"meters": METER_SEQ, "sequences": "initial meter + up to 3 set_meter calls, then '+'"})
